@@ -91,21 +91,51 @@ func (d *SimDB) Close() error {
 //go:norace
 func (d *SimDB) BeginTx() (mwdb.DBTransaction, error) {
 	g := d.S.Current()
-	if g != nil {
-		d.S.Gate("db.begin")
-	} else {
-		d.S.dbLockRoot()
-	}
 	if d.fault("begin") {
-		d.S.dbLockRelease(g)
 		return nil, ErrInjectedDB
 	}
+	// The wait for the writer lock happens inside the real BeginTx, at the
+	// hook ldb calls right before muTr.Lock() (writerLockGate below): the
+	// caller parks there until the simulated lock is free. Whatever BeginTx
+	// does before taking the lock therefore really runs while another
+	// writer holds it.
+	d.S.mu.Lock()
+	d.S.beginVia[goid()] = true
+	d.S.mu.Unlock()
 	tx, err := d.inner.BeginTx()
 	if err != nil {
 		d.S.dbLockRelease(g)
 		return nil, err
 	}
 	return &simTx{d: d, w: tx, r: tx, g: g}, nil
+}
+
+// writerLockGate is installed as ldb.SimBeforeWriterLock. Only calls that come
+// through a SimDB are gated (C11 drives ldb directly from one goroutine).
+//
+//go:norace
+func writerLockGate() {
+	worldMu.Lock()
+	w := currentWorld
+	worldMu.Unlock()
+	if w == nil {
+		return
+	}
+	s := w.S
+	id := goid()
+	s.mu.Lock()
+	via := s.beginVia[id]
+	delete(s.beginVia, id)
+	g := s.gs[id]
+	s.mu.Unlock()
+	if !via {
+		return
+	}
+	if g != nil {
+		s.Gate("db.begin")
+	} else {
+		s.dbLockRoot()
+	}
 }
 
 //go:norace
